@@ -399,6 +399,8 @@ fn class_archive(f: &Value, alg: u32, b: &Built) -> Vec<u8> {
     if cls("ndesc") == "none" {
         dict.descs.clear();
         dict.rebuild_order.clear();
+        // an inconsistent rebuild order is also possible without any descriptor: index 0 = number of descriptors
+        match cls("order").as_str() { "eq_len" => dict.rebuild_order.push(0), "huge" => dict.rebuild_order.push(u32::MAX), _ => {} }
         dict.source_total_size = 0;
         dict.source_checksum = b2(&[]);
     } else {
